@@ -51,7 +51,7 @@ OPS_REQUIRED = ["sort_tree", "get_subtree", "to_subtree", "cut_tree", "redirect_
 REQUIRED = ["contract_evals_" + o for o in OPS_REQUIRED] + [
     "steps_executed", "probe_output_poison", "probe_input_poison", "roundtrip_steps",
     "identity_transform_steps"]
-FLOOR = {"quick": 500, "thorough": 8000}
+FLOOR = {"quick": 300, "thorough": 6000}
 SHARDS = {"quick": 8, "thorough": 16}
 
 POISON_F, POISON_I = np.float32(-7.77e7), -77
